@@ -123,6 +123,7 @@ class GenState(Namer):
         self._crown_stack: list[InpCrown] = [root_crown]
 
         self.type_checked_type_paths: set[CrownPath] = set()
+        self.instance_checked_type_paths: set[CrownPath] = set()
         super().__init__(debug_trail=debug_trail, path_to_suffix={}, path=())
 
     @property
@@ -527,11 +528,18 @@ class BuiltinModelLoaderGen(ModelLoaderGen):
                 for key, value in crown.map.items():
                     self._gen_crown_dispatch(state, value, key)
 
-                if state.path not in state.type_checked_type_paths:
+                # iteration over keys of extra fields needs a real mapping, a successful subscription is not enough
+                checked_paths = (
+                    state.instance_checked_type_paths
+                    if crown.extra_policy in (ExtraForbid(), ExtraCollect()) else
+                    state.type_checked_type_paths
+                )
+                if state.path not in checked_paths:
                     with state.builder(f"if not isinstance({state.v_data}, CollectionsMapping):"):
                         self._gen_raise_bad_type_error(state, f"TypeLoadError(CollectionsMapping, {state.v_data})")
                     state.builder.empty_line()
                     state.type_checked_type_paths.add(state.path)
+                    state.instance_checked_type_paths.add(state.path)
 
                 if crown.extra_policy == ExtraForbid():
                     state.builder += f"""
@@ -670,14 +678,17 @@ class BuiltinModelLoaderGen(ModelLoaderGen):
         assign_to: str,
         on_lookup_error: str,
     ):
-        if state.parent_path not in state.type_checked_type_paths:
-            # an object having the `.get` attribute is not necessarily a mapping, so the type is checked explicitly
+        if state.parent_path not in state.instance_checked_type_paths:
+            # A successful subscription of a required field does not prove that the object is a mapping
+            # (sqlite3.Row, re.Match and classes are subscriptable), the ``in`` operator needs a real one,
+            # so the type is checked explicitly
             with state.builder(f"if not isinstance({state.parent.v_data}, CollectionsMapping):"):
                 self._gen_raise_bad_type_error(
                     state,
                     f"TypeLoadError(CollectionsMapping, {state.parent.v_data})",
                     namer=state.parent,
                 )
+            state.instance_checked_type_paths.add(state.parent_path)
             state.type_checked_type_paths.add(state.parent_path)
 
         with state.builder(f"if {state.path[-1]!r} in {state.parent.v_data}:"):
